@@ -26,7 +26,10 @@ def run(cx, chk):
     chk.rule("C08.R1v", "victim selection: full test, quota predicate (> on ghost hit, >= on miss), fallback only after an empty attempt, LRU end, victim ghosted")
     chk.rule("C08.R1f", "fallback: in both directions there is a path that takes the victim from the other queue after the preferred one was found empty")
     chk.rule("C08.R2", "derived sizes: recent_size and ghost capacity = floor(size as f64 * ratio) as usize; recent/frequent capacity = size")
+    chk.rule("C08.R3", "non-use operations (peek*, contains, len, per-segment accessors, ...) reach no mutation: they neither promote nor refresh")
+    chk.rule("C08.R4", "purge empties every retained list of the cache")
     for cfg, F in cx.cfgs():
+        composite.policy_hygiene(cx, chk, cfg, F, "TwoQueueCache", "C08.R3", "C08.R4")
         for name in ("put", "get", "get_mut"):
             route(cx, chk, cfg, F, composite.cache_method(F, ADT, name), name)
         sizes(cx, chk, cfg, F)
